@@ -91,6 +91,7 @@ func Decode(r io.Reader, opts ...DecodeOption) (*File, error) {
 func DecodeChained(r io.Reader, opts ...DecodeOption) ([]*File, error) {
 	var fitFiles []*File
 	var i int
+	r = &errKeeper{r: r}
 	for {
 		var d decoder
 		for _, opt := range opts {
@@ -113,11 +114,35 @@ func DecodeChained(r io.Reader, opts ...DecodeOption) ([]*File, error) {
 	}
 }
 
+// errKeeper hands on what r delivers. An error that r returns together with
+// data is not dropped: the data is delivered first and the error is returned,
+// alone, by the next Read (a reader need not repeat it, see io.Reader).
+type errKeeper struct {
+	r   io.Reader
+	err error
+}
+
+func (k *errKeeper) Read(p []byte) (int, error) {
+	if k.err != nil {
+		err := k.err
+		k.err = nil
+		return 0, err
+	}
+	n, err := k.r.Read(p)
+	if n > 0 && err != nil {
+		k.err, err = err, nil
+	}
+	return n, err
+}
+
 func (d *decoder) decode(r io.Reader, headerOnly, fileIDOnly, crcOnly bool) error {
 	if d.opts.logger != nil {
 		d.debug = true
 	}
 
+	if _, ok := r.(*errKeeper); !ok {
+		r = &errKeeper{r: r}
+	}
 	d.r = r
 	d.crc = dyncrc16.New()
 
